@@ -58,6 +58,7 @@ func rtmpFacts(p *pkgInfo, out *bytes.Buffer) error {
 	sec := &sections{w: out}
 	sec.run("WriteMessage follows its own Set Chunk Size (C01)", func(w *bytes.Buffer) error { return rtmpFactsWriter(p, w) })
 	sec.run("transaction bookkeeping order and locking (C04)", func(w *bytes.Buffer) error { return rtmpFactsTxn(p, w) })
+	sec.run("DecodeMessage leaves the reader's settings alone (C02)", func(w *bytes.Buffer) error { return rtmpFactsDecodePure(p, w) })
 	sec.run("Expect* hand a failed read straight back (C08)", func(w *bytes.Buffer) error { return rtmpFactsExpect(p, w) })
 	return sec.err()
 }
@@ -762,5 +763,56 @@ func rtmpFactsExpect(p *pkgInfo, w *bytes.Buffer) error {
 		return nil
 	}
 	fmt.Fprintf(w, "/-- C08 fact. Evidence: in each of [%s] the `if` that tests the error of `ReadMessage()` has a `return` as its first\nstatement: a failed read is handed back at once (wrapped), whatever the error says about itself. -/\ndef expectReturnsFirstError : Bool := %s\n", strings.Join(names, ", "), boolLean(all))
+	return nil
+}
+
+// rtmpFactsDecodePure: the exported DecodeMessage (a message -> packet helper that applications call on messages they
+// hold, in any order and at any time) and the methods of Protocol it calls assign nothing under `input.opt` — the chunk
+// size and window the reader applies to the peer's stream change only while the stream is being read.
+func rtmpFactsDecodePure(p *pkgInfo, w *bytes.Buffer) error {
+	dm := p.funcDecl("Protocol", "DecodeMessage")
+	if dm == nil {
+		return fmt.Errorf("func (*Protocol) DecodeMessage")
+	}
+	bodies := []ast.Node{dm.Body}
+	names := []string{"DecodeMessage"}
+	seen := map[string]bool{"DecodeMessage": true}
+	for i := 0; i < len(bodies) && i < 12; i++ {
+		ast.Inspect(bodies[i], func(n ast.Node) bool {
+			if ce, ok := n.(*ast.CallExpr); ok {
+				if se, ok := ce.Fun.(*ast.SelectorExpr); ok && !seen[se.Sel.Name] {
+					if callee := p.funcDecl("Protocol", se.Sel.Name); callee != nil && callee.Body != nil {
+						seen[se.Sel.Name] = true
+						bodies = append(bodies, callee.Body)
+						names = append(names, se.Sel.Name)
+					}
+				}
+			}
+			return true
+		})
+	}
+	var hits []string
+	for i, b := range bodies {
+		ast.Inspect(b, func(n ast.Node) bool {
+			switch x := n.(type) {
+			case *ast.AssignStmt:
+				for _, l := range x.Lhs {
+					if strings.Contains(selString(l), "input.opt") {
+						hits = append(hits, names[i]+": "+selString(l))
+					}
+				}
+			case *ast.IncDecStmt:
+				if strings.Contains(selString(x.X), "input.opt") {
+					hits = append(hits, names[i]+": "+selString(x.X))
+				}
+			}
+			return true
+		})
+	}
+	ev := "no assignment under `input.opt` in [" + strings.Join(names, ", ") + "]"
+	if len(hits) > 0 {
+		ev = "assignments: " + strings.Join(hits, "; ")
+	}
+	fmt.Fprintf(w, "/-- C02 fact. Evidence: %s. -/\ndef decodeMessageLeavesReaderSettings : Bool := %s\n", ev, boolLean(len(hits) == 0))
 	return nil
 }
